@@ -5,6 +5,7 @@ import (
 	"io/ioutil"
 	"os"
 	"path/filepath"
+	"runtime"
 	"sort"
 	"strings"
 
@@ -80,6 +81,18 @@ func isNotEnough2(err error) bool { return par2.RepairErrorMeansRepairNecessaryB
 
 // p2 <op> <mode> ...
 func p2(w []string) string {
+	if os.Getenv("VH_ALLOC") == "" {
+		return p2run(w)
+	}
+	// report the bytes allocated while the operation ran (C13/C19: memory in proportion to the input)
+	var m0, m1 runtime.MemStats
+	runtime.ReadMemStats(&m0)
+	res := p2run(w)
+	runtime.ReadMemStats(&m1)
+	return fmt.Sprintf("%s alloc=%d", res, m1.TotalAlloc-m0.TotalAlloc)
+}
+
+func p2run(w []string) string {
 	return guard(func() string {
 		op, mode := w[0], w[1]
 		w = w[2:]
